@@ -52,6 +52,10 @@ package radixtree
 //@ func (*Tree).delNode
 //@   props C02 C06
 //@   assert at return#2@3fbd3b54.1: len(n.values) == 0 ==> n.backtrackingEnabled
+// C06: "matching behaves exactly as if the current versions ... had been loaded once into an empty
+// instance": a node that lost its last rule names no wildcards any more - otherwise an expression
+// with other wildcard names is refused here although a fresh load accepts it
+//@   assert at return#2@3fbd3b54.1: len(n.values) == 0 ==> len(n.wildcardKeys) == 0
 
 // the lookup either yields an entry or an error (ghost log tfind)
 //@ func (*Tree).Find
